@@ -749,6 +749,73 @@ def _fft_guard_cases(res, viol):
                  cos=float(COSPricer(model).call(np.array([100.0]), T)[0]))
 
 
+def _rate_sweep(res, rng, viol):
+    """A pricer must not remember a model that no longer exists, nor an earlier state of a live one: (1) sweep over the rate building a
+    FRESH model per value with identical Levy parameters inside a function (the previous model is garbage: del + gc.collect(); CPython
+    hands its address to the next one), (2) model.r / model.d changed in place between quotes on one pricer and across pricers.
+    Every COS quote is compared with the closed form (Black-Scholes) or the FFT pricer, and with the quote of an independently built model."""
+    import gc
+    import numpy as np
+    from rpylib.model import utils as U_
+    from rpylib.model.levymodel.levymodel import ModelType
+    from rpylib.numerical.cosmethod import COSPricer
+    from rpylib.numerical.fft import FFTPricer
+    from rpylib.numerical.closedform.cfblackscholes import CFBlackScholes
+    S, T = 100.0, 1.0
+    ks = np.array([80.0, 100.0, 120.0])
+    families = [("BLACKSCHOLES", dict(sigma=0.2)), ("HEM", dict(sigma=0.1, p=0.5, eta1=12.0, eta2=12.0, intensity=2.0)),
+                ("VG", dict(sigma=0.2, nu=0.1, theta=-0.1))]
+    tol = TOL * S
+
+    def reference(name, model):
+        if name == "BLACKSCHOLES":
+            cf = CFBlackScholes(model)
+            return np.array([float(cf.call(float(k), T)) for k in ks])
+        return FFTPricer(model).call(ks, T)
+
+    def one(name, kw, r, d, n):
+        model = U_.helper_model(ModelType[name])(spot=S, r=r, d=d, **kw)
+        cos = COSPricer(model, n=n)
+        got = cos.call(ks, T)
+        dev = float(np.max(np.abs(got - reference(name, model))))
+        addr = id(model)
+        del cos, model
+        return got, dev, addr
+
+    for name, kw in families:
+        seen, reused = {}, 0
+        n = rng.choice([2 ** 10, 10_000])
+        rates = [0.0025 * i for i in range(24)]
+        rng.shuffle(rates)
+        for r in rates:
+            gc.collect()
+            got, dev, addr = one(name, kw, r, 0.0, n)
+            reused += addr in seen
+            res.count(("rate-sweep", name, r, n), kind="fresh model per rate (garbage-collected predecessor)")
+            if dev > tol:
+                viol("COS quote of a FRESH model depends on a model priced before (same Levy parameters, other rate, released)",
+                     kind="rate_sweep", model=name, params=kw, rate=r, n=n, deviation=dev, tol=tol,
+                     previous_rate_at_this_address=seen.get(addr), cos=[float(v) for v in got])
+                break
+            seen[addr] = r
+        res.bump("rate_sweep_address_reuse", f"{name}: {reused} of {len(rates)} models allocated at a released address")
+        # in-place change of the live model's rate / dividend between quotes: one pricer, then a second pricer
+        model = U_.helper_model(ModelType[name])(spot=S, r=0.01, d=0.0, **kw)
+        cos = COSPricer(model, n=n)
+        first = cos.call(ks, T)
+        for attr, val in (("r", 0.08), ("d", 0.03), ("r", 0.0)):
+            setattr(model, attr, val)
+            fresh = U_.helper_model(ModelType[name])(spot=S, r=model.r, d=model.d, **kw)
+            want = COSPricer(fresh, n=n).call(ks, T)
+            for label, pricer in (("the same pricer", cos), ("a new pricer on the same model", COSPricer(model, n=n))):
+                got = pricer.call(ks, T)
+                res.count(("in-place", name, attr, val, label), kind="model.r / model.d changed in place")
+                dev = float(max(np.max(np.abs(got - want)), np.max(np.abs(got - reference(name, model)))))
+                if dev > tol:
+                    viol(f"COS quote ignores an in-place change of model.{attr} ({label})", kind="rate_sweep", model=name, params=kw,
+                         attribute=attr, value=val, deviation=dev, tol=tol, cos=[float(v) for v in got], fresh_model=[float(v) for v in want])
+
+
 def correspond(res):
     rng = random.Random(res.seed)
     quick = res.tier == "quick"
@@ -765,6 +832,7 @@ def correspond(res):
         _degenerate_bs(res, viol)
         guard = _guard_cases(res, rng, viol)
         _fft_guard_cases(res, viol)
+        _rate_sweep(res, rng, viol)
         _differential(res, rng, 14 if quick else 150, 6 if quick else 60, viol)
     _run_lemmas(res, "cases_coefficients", coef + simp + guard)
     _run_lemmas(res, "cases_bs", bs)
@@ -794,6 +862,14 @@ def replay(path):
         except Exception as e:  # noqa
             print(f"raises {type(e).__name__}: {e}")
             return 1
+    if data.get("kind") == "rate_sweep":
+        from common import Result
+        res = Result(PROP, "quick", 0)
+        found = []
+        _rate_sweep(res, random.Random(0), lambda what, **kw: found.append(what))
+        for w in found:
+            print("VIOLATED:", w)
+        return 1 if found else 0
     if data.get("kind") == "fft_guard":
         from rpylib.model import utils as U_
         from rpylib.model.levymodel.levymodel import ModelType
